@@ -189,7 +189,7 @@ def check_C01(tier, seed):
     cov = {"states": states, "transitions": trans, "traces_validated_against_impl": len(events),
            "evaluations": len(events), "distinct_nontrivial": len(classes),
            "rule": "one evaluation = one establish proof built by the adversarial prover for a strategy of the catalogue (slot x side x lie x {honest-but-lying, unlinked, "
-                   "late revealed scalar, simulated T, simulated C}) and submitted to merchant::Config::initialize; distinct = (strategy family, set of violated relations, verdict)",
+                   "late revealed scalar, simulated T, simulated C, responses as for the agreed values incl. compensating lies}) and submitted to merchant::Config::initialize; distinct = (strategy family, set of violated relations, verdict)",
            "samples": [{"strategy": e["strategy"], "accepted": e["accepted"], "truth": e["truth"], "violated_relations": [k for k, v in e["atoms"].items() if not v]} for e in events[:3] + events[40:43]],
            "observed_hashed": hashed, "accepted_strategies": acc, "game_primes": primes, "protocol_level_IssuedMatchesLedger_NoDoubleSpend": pres,
            "clusters": [c[0] + ":" + c[1] for c in EST_CLUSTERS], "exhaustive": False,
@@ -246,7 +246,8 @@ def check_C02(tier, seed):
     cov = {"states": states, "transitions": trans, "traces_validated_against_impl": len(events),
            "evaluations": len(events), "distinct_nontrivial": len(classes),
            "rule": "one evaluation = one pay proof built by the adversarial prover on a real pay token for a strategy of the catalogue (every false variant of the statement x "
-                   "{honest-but-lying, unlinked, late revealed scalar, simulated T, simulated C}) and submitted to merchant::Config::allow_payment; "
+                   "{honest-but-lying, unlinked, late revealed scalar, simulated T, simulated C, responses as for the agreed values incl. compensating lies}, a digit-level range prover "
+                   "with foreign-key and cooperating forged digit signatures, tampered tokens) and submitted to merchant::Config::allow_payment; "
                    "distinct = (strategy family, set of violated relations, verdict)",
            "samples": [{"strategy": e["strategy"], "accepted": e["accepted"], "truth": e["truth"], "violated_relations": [k for k, v in e["atoms"].items() if not v]} for e in events[:2] + events[8:12]],
            "observed_hashed": {k: hashed[k] for k in ("rev", "C", "T")}, "unhashed_atoms": hashed["other_unhashed"], "protocol_level_IssuedMatchesLedger_NoDoubleSpend": pres,
